@@ -249,7 +249,7 @@ SLICES = "{<<1,99,1>>, <<0,1,1>>, <<99,-1,1>>, <<-2,99,1>>, <<1,2,1>>, <<0,99,1>
 
 
 KINDS = {"quick": ('{"a","f","x","g","xp","xk"}', '{"a","x","xp"}'), "full": ('{"a","b","f","x","g","xp","xk"}', '{"a","x","g","xp","xk"}'),
-         "small": ('{"a","f","x","xp"}', '{"a","xp"}')}
+         "small": ('{"a","f","xp"}', '{"a","xp"}')}
 
 
 def edit_defs(n_inits, size="full", sample=0):
@@ -265,9 +265,9 @@ EDIT_INVS = ["MkInBounds", "AtMostOneFinal", "ConvOK", "ExpandPaired"]
 def edit_plan(tier):
     """(name, wrapper constants, MaxSteps, simulate spec) of the PipelineGen runs."""
     if tier == "quick":
-        return [("exhaustive", edit_defs(4, "quick"), 2, None), ("simulate", edit_defs(6, sample=5), 6, "num=400")]
+        return [("exhaustive", edit_defs(4, "quick"), 2, None), ("simulate", edit_defs(6, sample=5), 6, "num=250")]
     return [("exhaustive", edit_defs(6), 2, None), ("exhaustive-deep", edit_defs(3, "small"), 3, None),
-            ("simulate", edit_defs(6, sample=5), 8, "num=30000")]
+            ("simulate", edit_defs(6, sample=5), 8, "num=20000")]
 
 
 def edit_generate(job, seed, workers):
@@ -357,16 +357,38 @@ def edit_replay(jobs, results, seed):
         negs.append((len(cases), "acceptance"))
         cases.append(c)
     wd2 = lib.workdir(PID, "edit_trace")
-    (wd2 / "cases.json").write_text(json.dumps(cases))
     return {"hists": hists, "cases": cases, "walks": walks, "negs": negs, "n_real": n_real, "neg_ok": neg_ok, "states": states, "trans": trans,
-            "model": model, "n_calls": n_calls, "op_counts": op_counts, "file": wd2 / "cases.json", "wd": wd2}
+            "model": model, "n_calls": n_calls, "op_counts": op_counts, "wd": wd2}
+
+
+CHUNK = 40000        # cases per TLC start (a JSON file of > 10^5 records exhausts the heap when deserialised)
+
+
+class _Merged:
+    """verdict tuples of several TLC runs over consecutive chunks, renumbered to global case indices"""
+
+    def __init__(self):
+        self.tuples, self.distinct, self.generated = [], 0, 0
+
+
+def _validate_chunks(module, cases, wd, what):
+    out = _Merged()
+    for k in range(0, max(len(cases), 1), CHUNK):
+        part = cases[k:k + CHUNK]
+        f = wd / f"cases_{k // CHUNK}.json"
+        f.write_text(json.dumps(part))
+        r = lib.run_tlc(module, lib.cfg(init="TInit", next_="TNext", constants={"NCASES": len(part)}), wd / f"chunk{k // CHUNK}",
+                        env={"TRACE_FILE": str(f)}, timeout=3000)
+        lib.require_ok(r, what)
+        out.tuples += [[t[0], t[1] + k] + list(t[2:]) for t in r.tuples if t[0] == "V"]
+        out.distinct += r.distinct
+        out.generated += r.generated
+        f.unlink()
+    return out
 
 
 def edit_validate(ctx):
-    r = lib.run_tlc("Trace_Pipeline", lib.cfg(init="TInit", next_="TNext", constants={"NCASES": len(ctx["cases"])}), ctx["wd"],
-                    env={"TRACE_FILE": str(ctx["file"])}, timeout=3000)
-    lib.require_ok(r, "Trace_Pipeline")
-    return r
+    return _validate_chunks("Trace_Pipeline", ctx["cases"], ctx["wd"], "Trace_Pipeline")
 
 
 def edit_judge(ctx, r, cov, viol):
@@ -1051,15 +1073,11 @@ def apply_trace_prepare(traces, rng):
         negs.append(len(traces))
         traces.append(c)
     wd = lib.workdir(PID, "apply_trace")
-    (wd / "cases.json").write_text(json.dumps(traces))
     return {"traces": traces, "n_real": n_real, "negs": negs, "wd": wd}
 
 
 def apply_validate(ctx):
-    r = lib.run_tlc("Trace_PipelineApply", lib.cfg(init="TInit", next_="TNext", constants={"NCASES": len(ctx["traces"])}), ctx["wd"],
-                    env={"TRACE_FILE": str(ctx["wd"] / "cases.json")}, timeout=3000)
-    lib.require_ok(r, "Trace_PipelineApply")
-    return r
+    return _validate_chunks("Trace_PipelineApply", ctx["traces"], ctx["wd"], "Trace_PipelineApply")
 
 
 def apply_judge(ctx, r, n_syn, viol):
@@ -1182,9 +1200,8 @@ def replay(path, tier, seed):
         cases.append({"prev": prev, "o": o, "obs": obs})
         p, prev = newp, {"seq": obs["seq"], "mk": obs["mk"]}
     wd = lib.workdir(PID, "replay")
-    (wd / "cases.json").write_text(json.dumps(cases))
     try:
-        r = edit_validate({"cases": cases, "wd": wd, "file": wd / "cases.json"})
+        r = edit_validate({"cases": cases, "wd": wd})
     finally:
         if not os.environ.get("VERIF_KEEP"):
             lib.clean_work(PID)
